@@ -35,7 +35,8 @@ Record ccase := {
   c_merges : list nat;        (* observed, sorted *)
   c_fired : list key;         (* observed, sorted *)
   c_handlers : nat;           (* callback handlers passed with WithCallbacks *)
-  c_cb_sides : list nat;      (* for every lambda execution: how many sides of its own paradigm are streams (0..2) *)
+  c_cb_sides : list (nat * nat);  (* for every node execution: how many sides of its own paradigm are streams (0..), and how many
+                                     handlers apply to that node (the undesignated ones plus those designated to it) *)
   c_cb_copies : list Z;       (* observed: sizes of the Copy calls of callbacks.OnWithStreamHandle *)
   c_cp_drains : nat;          (* observed: streams concatenated by checkPointer.convertCheckPoint *)
   c_input_closes : nat;       (* observed: ignored inputs of resumed calls closed by runner.run *)
@@ -48,7 +49,7 @@ Definition mkSub (dag : bool) (calls : list (key * call)) (sched : list batch) :
 Definition mkRS (dag eager : bool) (calls : list (key * call)) (before after : list key)
                (segs : list (list batch)) (subs : list (graph * list batch))
                (cp : list Z) (rc uc cc sc : nat) (mg : list nat) (fired : list key)
-               (handlers : nat) (sides : list nat) (cbc : list Z) (drains closes : nat) : ccase :=
+               (handlers : nat) (sides : list (nat * nat)) (cbc : list Z) (drains closes : nat) : ccase :=
   {| c_graph := {| g_dag := dag; g_eager := eager; g_calls := calls |};
      c_cfg := {| i_before := before; i_after := after |}; c_segs := segs; c_subs := subs;
      c_copies := cp; c_resolve_closes := rc; c_update_closes := uc; c_chan_closes := cc; c_skip_closes := sc;
@@ -56,7 +57,7 @@ Definition mkRS (dag eager : bool) (calls : list (key * call)) (before after : l
      c_cp_drains := drains; c_input_closes := closes |}.
 Definition mkR (dag eager : bool) (calls : list (key * call)) (sched : list batch) (subs : list (graph * list batch))
                (cp : list Z) (rc uc cc sc : nat) (mg : list nat) (fired : list key)
-               (handlers : nat) (sides : list nat) (cbc : list Z) : ccase :=
+               (handlers : nat) (sides : list (nat * nat)) (cbc : list Z) : ccase :=
   mkRS dag eager calls [] [] [sched] subs cp rc uc cc sc mg fired handlers sides cbc 0 0.
 
 Fixpoint zlist_eqb (a b : list Z) : bool :=
@@ -153,8 +154,10 @@ Definition bad_run (c : ccase) : bool :=
    start, the one that completes another one at its end (an interrupted call ends with OnError); every
    nested graph run has two; every lambda execution one per streaming side of its paradigm *)
 Definition bad_callbacks (c : ccase) : bool :=
-  let sites := (List.length (c_segs c) + 1 + 2 * List.length (c_subs c) + fold_right Nat.add 0%nat (c_cb_sides c))%nat in
-  negb (zlist_eqb (callback_copies (c_handlers c) sites) (c_cb_copies c)).
+  let graph_sites := (List.length (c_segs c) + 1 + 2 * List.length (c_subs c))%nat in
+  negb (zlist_eqb (sort_by Z.ltb (callback_copies (c_handlers c) graph_sites ++
+                                  flat_map (fun sn => callback_copies (snd sn) (fst sn)) (c_cb_sides c)))
+                  (c_cb_copies c)).
 
 Definition bad (c : ccase) : bool := bad_tasks c || bad_run c || bad_callbacks c.
 Definition mismatches (cs : list ccase) : list nat := mismatches_from bad 0 cs.
